@@ -1,6 +1,22 @@
-import PjVerif.Basic
-partial def loop (h : IO.FS.Stream) (n : Nat) : IO Unit := do
-  let line ← h.getLine
-  if line.isEmpty then IO.println s!"{n}"; return ()
-  loop h (n+1)
-def main : IO Unit := do loop (← IO.getStdin) 0
+/- Driver.lean — line protocol: one JSON case per line in, one JSON verdict per line out -/
+import PjVerif.Drive.Cal
+open Lean Pj.Drive
+
+def dispatch (j : Json) : Json :=
+  match jStr (fld j "fam") with
+  | "cal" => runCal j
+  | f => mkObj [("id", fld j "id"), ("error", .str s!"unknown family {f}")]
+
+def main : IO Unit := do
+  let out ← IO.getStdout
+  let inp ← IO.getStdin
+  let mut go := true
+  while go do
+    let line ← inp.getLine
+    if line.isEmpty then
+      go := false
+    else if !line.trimAscii.toString.isEmpty then
+      match Json.parse line with
+      | .ok j => out.putStrLn (dispatch j).compress
+      | .error e => out.putStrLn (mkObj [("error", .str s!"parse: {e}")]).compress
+      out.flush
